@@ -358,7 +358,7 @@ HARMLESS_START = [["print_version", "("], ["cmd", ".", "print", "("], ["constexp
 def parse_tool(repo, name, rel):
     path = os.path.join(repo, rel)
     s = Src(rel, open(path).read())
-    tool = dict(name=name, file=rel, decls=[], help_exit=None, pre=[], argv_uses=[], blocks=[], unknown_exit=None, has_blocks=False)
+    tool = dict(name=name, file=rel, decls=[], help_exit=None, pre=[], argv_uses=[], blocks=[], unknown_exit=None, has_blocks=False, documented=[])
     mf = find_function(s, "main")
     if mf is None: raise Problem("%s: no main" % rel)
     lo, hi = mf
@@ -371,6 +371,12 @@ def parse_tool(repo, name, rel):
                     raise Problem("%s: exit(%s) in help() is not a literal" % (rel, s.txt(j + 2, s.match[j + 1])))
                 tool["help_exit"] = int(s.v[j + 2])
             if s.v[j] in ("argc", "argv", "cmd"): raise Problem("%s: help() looks at the command line" % rel)
+            if s.k[j] == "str":
+                # a help line that introduces an option: leading blanks, then -Name[,| or] -Alias ... up to the first ':'
+                lit = unq(s.v[j])
+                m = re.match(r"^\s+(-[A-Za-z][A-Za-z0-9]*(?:\s*(?:,|or|\s)\s*-[A-Za-z][A-Za-z0-9]*)*)\s*:", lit)
+                if m:
+                    tool["documented"].append(re.findall(r"-[A-Za-z][A-Za-z0-9]*", m.group(1)))
             j += 1
     consts = {}; parmlists = {}
     recognised_option_calls = 0; recognised_argc = 0
@@ -609,7 +615,8 @@ def emit(tools):
                 clist([cstr(a) for a in b["aliases"]]), "true" if b["multi"] else "false", clist([cstr(p) for p in b["parms"]]),
                 clist([cstr(a) for a in b["variant"]]), clist(us)))
         o.append("  t_blocks := [" + ";\n    ".join(bl) + "];")
-        o.append("  t_unknown_exit := %s |}." % ("None" if t["unknown_exit"] is None else "Some " + cz(t["unknown_exit"])))
+        o.append("  t_unknown_exit := %s;" % ("None" if t["unknown_exit"] is None else "Some " + cz(t["unknown_exit"])))
+        o.append("  t_documented := %s |}." % clist([cstr(a) for grp in t["documented"] for a in grp]))
         o.append("")
     o.append("Definition gen_tools : list tool := %s." % clist(names))
     head = ["(* GENERATED by translators/t_cli.py from the command-line tools of the working tree -- do not edit. *)",
